@@ -44,6 +44,21 @@ CLAIMED = {
             'level': 'exhaustive over every diagnostic call site, every call to an error-returning function and every '
                      'path of main() reachable from naken_asm; path-insensitive to infeasible branches except the modelled idioms',
             'note': NOTE},
+    'C15': {'technique': 'interval analysis (abstract interpretation with whole-program field invariants) of every fixed-array subscript and divisor '
+                         'in simulate/, call-graph cycle + depth-guard search, who-may-touch scan of Memory internals',
+            'level': 'exhaustive over the subscripts, divisions, recursion cycles and Memory accesses of all simulators; subscripts the '
+                     'domain cannot bound are listed as observations with the invariant read from the code; partial: memory safety '
+                     'and termination shape, not PC agreement or determinism of values',
+            'note': NOTE},
+    'C16': {'technique': 'interval analysis of fixed-array subscripts and divisors, (buffer,length) protocol check, end-of-input exit search on reader loops, '
+                         'call-graph cycle + depth-guard search, exact small-state exploration of the expression stacks, table sentinel check',
+            'level': 'exhaustive over everything reachable from naken_asm\'s main(): subscripts, (buffer,length) calls, constant-true reader loops, '
+                     'recursion cycles, divisions, table walks; partial: unbounded strcpy/strcat chains and heap exhaustion are not decided',
+            'note': NOTE},
+    'C17': {'technique': 'the C16 rules over the functions reachable from naken_util\'s main(), plus dispatch-table agreement of commands and file types',
+            'level': 'exhaustive over subscripts, reader loops, recursion cycles, divisions and dispatch entries reachable from naken_util; '
+                     'partial: file-supplied offsets used as pointer offsets (taint) are not decided',
+            'note': NOTE},
     'C18': {'technique': 'call-order / argument-identity check of the listing hook, effect analysis of formatters, data-dump selection constant',
             'level': 'exhaustive over assemble()\'s listing hook, the dump loop and the 59 formatter roots; narrow: not the formatters\' text',
             'note': NOTE},
